@@ -68,13 +68,18 @@ Concrete(ap, g) ==
            dig       |-> IF an THEN "a" \o ToString(g.attrs) \o "-" \o ToString(g.ab) ELSE "",
            nhs       |-> IF an THEN g.nh ELSE ""]
 
+(* towards a peer without the 4-octet AS capability (RFC 6793 4.2.2) the one-AS AS_PATH shrinks
+   by 2 octets and, when its AS does not fit 2 octets (odd attribute-set ids), an AS4_PATH of
+   3 + 2 + 4 octets is added *)
+As2Delta(attrs, as2) == IF ~as2 THEN 0 ELSE IF attrs % 2 = 1 THEN 7 ELSE -2
+
 (* the measured sizes of a recorded change agree with the formulas (soundness cross-check of the
    trace spec: a disagreement is a conformance gap, never a verdict) *)
-MeasuredAgree(ap, c) ==
+MeasuredAgree(ap, as2, c) ==
   c.kind = "eor" \/
     LET nl == NlriLen(c.fam, c.plen, ap[c.fam]) IN
       /\ c.nlriBytes = nl
       /\ c.kind = "ann" => /\ c.attrBytes = c.ab
                            /\ c.nhBytes = NhBytesOf(c.fam, c.nh)
-                           /\ c.single = SingleLen(c.fam, c.nh, c.ab, nl)
+                           /\ c.single = SingleLen(c.fam, c.nh, c.ab + As2Delta(c.attrs, as2), nl)
 =============================================================================
